@@ -45,7 +45,7 @@ import numpy as np
 
 from ..cert import DM, chol_factor, frac_json
 from ..common import CorrespondenceBroken, InfraError
-from ..exact import Pure, call_rng, describe, present_nd
+from ..exact import Pure, call_rng, describe, present_nd, strict_fp_call
 from ..pool import Result, fold, run_pool, worker_driver
 
 RULE = ("XOR games: corpus (CHSH in int/float/bool predicate dtype, odd-cycle games n=3,5, rectangular and degenerate shapes) then seeded random games with "
@@ -61,7 +61,12 @@ RULE = ("XOR games: corpus (CHSH in int/float/bool predicate dtype, odd-cycle ga
         "classical value with repetitions (reps 2..3 where the enumeration of the product game is small) against the Lean mirror of the code path; "
         "constructor stream: 60 (thorough 600) exact dyadic matrices 1..4 x 1..4, valid / size mismatch / negative entry / total off by 2^-k / exactly on the "
         "tolerance boundary, tol defaulted or 0 / 2^-4 .. 2^-30; Bell embedding stream: 3 exact real two-qubit strategies per Bell instance (full-rank rational "
-        "state, rank-one projectors from integer vectors, second setting = computational basis) plugged into the captured cvxpy problem")
+        "state, rank-one projectors from integer vectors, second setting = computational basis) plugged into the captured cvxpy problem; "
+        "strict_fp (in-process, functions that call no solver: XORGame.__init__ incl. its guards, to_nonlocal_game, classical_value; reps 1 and, for at most 2 x 2 questions, 2): the corpus games, "
+        "games whose predicate is all 0 / all 1, distributions concentrated on one question pair or with zero rows / columns, and 12 random games (kinds zero-row-col / sparse / uniform) from a fresh child of "
+        "the seeded generator spawned after all other streams, evaluated once in NumPy's default floating-point error state and once with invalid / divide / overflow set to raise "
+        "(harness.exact.strict_fp_call): same tol, converted arrays bitwise equal, same classical value (1e-12); nonsignaling_value / quantum_value build a cvxpy program and are not part of this stream; "
+        "non-trivial = at least 2 x 2 questions and a predicate that is not constant")
 ASSUMPTIONS = [
     "toqito computes with the float inputs it is given; the instance certified is their exact rational image",
     "tolerance 1e-3 (times the coefficient scale for Bell expressions) on SCS-solved values (DESIGN.md 4.4); classical values are compared exactly "
@@ -1083,6 +1088,77 @@ def work(task, res: Result):
 
 BIG_POOL_GAMES = ((10, 10), (10, 11))   # the enumerated player has 2^10 > 1000 strategies: multiprocessing branch of NonlocalGame.classical_value (oracle: one-sided enumeration, theorem xor_classical_one_sided)
 
+# ------------------------------------------------------------------------------------------------
+# strict-fp stream: XORGame.__init__ / to_nonlocal_game / classical_value must not depend on NumPy's global floating-point error state
+
+
+def strict_fp_games(rng):
+    out = [g for g in corpus() if g["m"] * g["n"] <= 16]
+    out += [
+        _game("all-one-pred", [[0.25, 0.25], [0.25, 0.25]], [[1, 1], [1, 1]], "bool"),
+        _game("point-mass", [[0.0, 0.0, 0.0], [0.0, 1.0, 0.0]], [[0, 1, 0], [1, 1, 0]], "float"),
+        _game("zero-column", [[0.5, 0.0], [0.25, 0.0], [0.25, 0.0]], [[0, 1], [1, 0], [0, 0]]),
+        _game("zero-row-and-column", [[0.0, 0.0, 0.0], [0.0, 0.5, 0.25], [0.0, 0.25, 0.0]], [[1, 0, 1], [0, 0, 1], [1, 1, 0]], "float", tol=1e-9),
+        _game("1x1-zero-pred", [[1.0]], [[0]], reps=2),
+    ]
+    for i in range(12):
+        m, n = int(rng.integers(1, 5)), int(rng.integers(1, 5))
+        kind = ("zero-row-col", "sparse", "uniform")[i % 3]
+        out.append(_game(f"rand-{kind}", _dyadic_dist(rng, m, n, 6, kind), rng.integers(0, 2, size=(m, n)), ("int", "float", "bool")[int(rng.integers(3))],
+                         None if rng.integers(2) else 1e-6, 2 if (m <= 2 and n <= 2 and rng.integers(2)) else 1))
+    return out
+
+
+def strict_fp_case(ctx, task):
+    from toqito.nonlocal_games.xor_game import XORGame
+    m, n, tol = task["m"], task["n"], task["tol"]
+    reps = task["reps"] if (m <= 2 and n <= 2 and task["reps"] <= 2) else 1
+    prob = np.array(task["prob"], dtype=float)
+    pred_i = np.array(task["pred"], dtype=int)
+    pred = pred_i.astype({"int": int, "float": float, "bool": bool}[task["pred_dtype"]])
+    kw = {} if tol is None else {"tol": tol}
+    base = dict(task, kind="strict_fp", reps=reps)
+    base.pop("calls", None)
+
+    def f():
+        g = XORGame(prob.copy(), pred.copy(), reps, **kw)
+        nl = g.to_nonlocal_game()
+        return float(g.tol), np.array(nl.prob_mat), np.array(nl.pred_mat), float(g.classical_value())
+
+    const = bool(np.all(pred_i == pred_i.flat[0]))
+    zeros = bool(np.any(prob.sum(axis=0) == 0) or np.any(prob.sum(axis=1) == 0))
+    ctx.case(dict(base, fn="strict_fp"), bool(m >= 2 and n >= 2 and not const), f"strict-fp/reps{reps}/{'const-pred' if const else ('zero-row-col' if zeros else 'plain')}")
+    fn = f"XORGame(prob, pred, {reps}" + ("" if tol is None else f", tol={tol!r}") + ") / to_nonlocal_game / classical_value"
+    info = {"function": "XORGame.classical_value", "args": base, "theorem": "xor_classical_path (the value is a function of the arguments; the mirror model has no global state)"}
+    with warnings.catch_warnings():
+        warnings.simplefilter("ignore")
+        try:
+            dv = ("ok", f())
+        except Exception as e:  # noqa: BLE001
+            dv = ("raise", f"{type(e).__name__}: {str(e)[:200]}")
+        sv = strict_fp_call(f)
+    if dv[0] == "ok" and sv[0] == "raise":
+        ctx.violation(f"{fn}: value depends on NumPy's floating-point error state (default state: a value; invalid/divide/overflow set to 'raise': {sv[1]}) on the {m} x {n} game '{task['label']}'",
+                      dict(info, impl=sv[1], model=dv[1][3]))
+        return
+    if dv[0] == "raise":
+        ctx.violation(f"{fn} raises {dv[1]} on the valid {m} x {n} game '{task['label']}'", dict(info, exception=dv[1]))
+        return
+    (t0, p0, q0, v0), (t1, p1, q1, v1) = dv[1], sv[1]
+    if t0 != t1 or p0.dtype != p1.dtype or q0.dtype != q1.dtype or not np.array_equal(p0, p1) or not np.array_equal(q0, q1):
+        ctx.violation(f"{fn}: tol / converted arrays under the strict floating-point error state differ from those of the default state", dict(info, impl=[t1, str(q1.dtype)], model=[t0, str(q0.dtype)]))
+        return
+    if not abs(v0 - v1) <= 1e-12:
+        ctx.violation(f"{fn}: classical value {v1!r} under the strict floating-point error state differs from the default-state value {v0!r}", dict(info, impl=v1, model=v0))
+        return
+    ctx.count("strict-fp/agree")
+
+
+def strict_fp_stream(ctx):
+    srng = ctx.rng.spawn(1)[0]
+    for t in strict_fp_games(srng):
+        strict_fp_case(ctx, t)
+
 
 def run(ctx, model_ok=True):
     rng = ctx.rng
@@ -1127,11 +1203,16 @@ def run(ctx, model_ok=True):
     ctx.extra["tolerances"] = {"scs": TAU, "classical": "exact (1e-12 for non-dyadic distributions)", "bell": "1e-3 * coefficient scale"}
     ctx.extra["certified_interval_width_bound"] = WIDTH_OK
     ctx.extra["grothendieck_constant_used"] = K_G
+    # strict floating-point error state (in-process; a fresh child of the seeded generator, spawned last so that no other stream shifts)
+    strict_fp_stream(ctx)
 
 
 def replay(ctx, rec):
     task = rec["args"]
     task = {k: v for k, v in task.items() if k not in ("call", "strategy")}
+    if task.get("kind") == "strict_fp":
+        strict_fp_case(ctx, {k: v for k, v in task.items() if k != "fn"})
+        return
     if task.get("kind") == "game" and "calls" not in task:
         mm, nn, rr = task.get("m", 9), task.get("n", 9), task.get("reps", 1)
         task["calls"] = ["q", "c", "conv", "npa", "ns"] + (["c2"] if mm <= 2 and nn <= 2 else [])
